@@ -459,7 +459,7 @@ def materialise(fmt, case, seed):
     if fmt not in K.FORMATS:
         return None
     meta = case.get("meta") or {}
-    if any(k not in K.META_KEYS or any(f not in K.SEP for f in v) for k, v in meta.items()):
+    if any(k not in K.META_KEYS or any(f not in K.VALUE_FEATURES for f in v) for k, v in meta.items()):
         return None
     d = K.build(fmt, case.get("body") or [], meta, seed)
     data = d["data"]
